@@ -201,6 +201,21 @@ def bulk_export_behaviour(n=20010):
             {"a": "EndBlock"}, {"a": "Commit"}]
 
 
+def gapped_heights_export_behaviour():
+    """A WRKChain that anchors every 1,000th height only: 25 records up to height 25,000 (far fewer than the 20,000 records an
+    export carries, spread over more than 20,000 heights), exported and re-imported, then further records on both chains."""
+    g = {"accts": ["A1", "A2"], "bal": {"A1": {"nund": 1000, "other": 0}, "A2": {"nund": 1000, "other": 0}},
+         "ent": {"signers": ["A1"], "min": 1, "limit": 2, "denom": "nund", "wl": [], "startId": 1},
+         "wrk": {"feeReg": 4, "feeRec": 1, "feePur": 1, "denom": "nund", "def": 30, "max": 40, "startId": 1},
+         "bcn": {"feeReg": 4, "feeRec": 1, "feePur": 1, "denom": "nund", "def": 2, "max": 3, "startId": 1},
+         "str": {"feeNum": 1, "feeDen": 100}}
+    rec = lambda h: {"a": "DeliverTx", "fee": {"nund": 1}, "msgs": [{"t": "WRec", "owner": "A1", "id": 1, "h": h, "bh": "b%d" % h, "ph": "", "h1": "", "h2": "", "h3": ""}]}
+    BB, EB, CM = {"a": "BeginBlock", "dt": 1000}, {"a": "EndBlock"}, {"a": "Commit"}
+    b = [{"a": "InitChain", "g": g}, BB, {"a": "DeliverTx", "fee": {"nund": 4}, "msgs": [{"t": "WReg", "owner": "A1", "moniker": "m", "name": "n", "genesis": "g", "type": "t"}]}]
+    b += [rec(1000 * k) for k in range(1, 26)] + [EB, CM, {"a": "ExportImport"}, BB, rec(26000), rec(27000), EB, CM, {"a": "ListQueries", "full": False}]
+    return b
+
+
 def default_limits_behaviours():
     """Registrations under the production storage limits (default 50,000, maximum 600,000 - the values of the modules'
     DefaultParams, where "limit = default" also means "limit = the code's DefaultStorageLimit constant"), exported and
@@ -265,7 +280,7 @@ def c15_custom(pid, tier, plan, scr, hbin, specdir):
     recs.append((rec, "scripted: WRKChain with 20,010 records in state, export + import, further records", 1))
     cov["export_import_round_trips"] += 1
     cov["export_cap_crossed_on_real_app"] = True
-    dl = default_limits_behaviours()
+    dl = default_limits_behaviours() + [gapped_heights_export_behaviour()]
     rec, _ = vlib.record_behaviours(hbin, dl, scr, name="default-limits-export")
     recs.append((rec, "scripted: registrations under the production storage limits (50,000 / 600,000), export + import, purchases and records", len(dl)))
     cov["export_import_round_trips"] += len(dl)
@@ -405,6 +420,33 @@ def removed_signer_acts(hbin, scr, sd):
               tx({"t": "Whitelist", "signer": "A1", "addr": "A2", "act": "add"}), tx({"t": "Raise", "pur": "A2", "amt": 3, "denom": "nund"}), EB, CM] + [BB, EB, CM] * 3
         behs.append(b)
     rec, _ = vlib.record_behaviours(hbin, behs, scr, name="removed-signer-acts")
+    return rec, len(behs)
+
+
+def restart_before_completion(hbin, scr, sd):
+    """A node that is stopped and started again on its database at every block boundary of an order's life (raised, decided,
+    tallied, minted): after the restart it goes on exactly where the committed state says (C03: the order is completed in
+    the block after its acceptance; nothing the process only remembered may matter)."""
+    import vlib
+    g = {"accts": ["A1", "A2", "A3"], "bal": {a: {"nund": 100, "other": 100} for a in ("A1", "A2", "A3")},
+         "ent": {"signers": ["A1", "A2"], "min": 1, "limit": 30, "denom": "nund", "wl": ["A3"], "startId": 1},
+         "wrk": {"feeReg": 24, "feeRec": 2, "feePur": 3, "denom": "nund", "def": 2, "max": 4, "startId": 1},
+         "bcn": {"feeReg": 20, "feeRec": 1, "feePur": 5, "denom": "nund", "def": 2, "max": 4, "startId": 1},
+         "str": {"feeNum": 1, "feeDen": 100}, "db": "goleveldb"}
+    BB, EB, CM = {"a": "BeginBlock", "dt": 1000}, {"a": "EndBlock"}, {"a": "Commit"}
+    tx = lambda *m: {"a": "DeliverTx", "msgs": list(m)}
+    blocks = [[BB, tx({"t": "Raise", "pur": "A3", "amt": 9, "denom": "nund"}), tx({"t": "Decide", "signer": "A1", "id": 1, "d": "accept"}), EB, CM],
+              [BB, tx({"t": "Raise", "pur": "A3", "amt": 5, "denom": "nund"}), EB, CM],
+              [BB, tx({"t": "Decide", "signer": "A2", "id": 2, "d": "accept"}), EB, CM], [BB, EB, CM], [BB, EB, CM], [BB, EB, CM]]
+    behs = []
+    for k in range(1, len(blocks)):
+        b = [{"a": "InitChain", "g": g}]
+        for i, blk in enumerate(blocks):
+            b += blk
+            if i + 1 == k:
+                b += [{"a": "Crash"}, {"a": "Restart"}]
+        behs.append(b)
+    rec, _ = vlib.record_behaviours(hbin, behs, scr, name="restart-before-completion")
     return rec, len(behs)
 
 
@@ -721,7 +763,7 @@ def c18_custom(pid, tier, plan, scr, hbin, specdir):
 
 
 PLANS = {
-    "C03": dict(mc=both(ENT_MC, ENT_GHOST), extra={"quick": [decision_patterns, signer_list_anomalies, removed_signer_acts], "thorough": [decision_patterns, signer_list_anomalies, removed_signer_acts]}, sim=ENT_SIM, random=rnd("ent", (300, 3), (2000, 20)),
+    "C03": dict(mc=both(ENT_MC, ENT_GHOST), extra={"quick": [decision_patterns, signer_list_anomalies, removed_signer_acts, restart_before_completion], "thorough": [decision_patterns, signer_list_anomalies, removed_signer_acts, restart_before_completion]}, sim=ENT_SIM, random=rnd("ent", (300, 3), (2000, 20)),
                 rule="TLC exhaustive on MC_Ent (all interleavings of raise/decide/whitelist/gov param change/time advance in small scope); behaviours = TLC-simulated schedules + seeded random histories executed on the real app; non-trivial = a recorded step (one ABCI call) validated against Chain!Step and all C03 monitors",
                 assumptions=COMMON_ASSUME),
     "C04": dict(ledger=True, mc=both(FEE_MC, ENT_MC), extra={"quick": [unbalanced_genesis], "thorough": [unbalanced_genesis]}, sim=both(FEE_SIM, ENT_SIM), sweep=FEE_SWEEP, random=rnd("ent", (300, 3), (2000, 20)),
@@ -732,7 +774,7 @@ PLANS = {
                 rule="supply and sum of ALL balances (iteration incl. unmodelled accounts) after every step of mixed histories; mint/burn events of every ABCI response equal the supply delta; supply changes only in BeginBlock by the completed orders' amounts", assumptions=COMMON_ASSUME),
     "C13": dict(mc=both(REG_MC, STR_MC, ENT_MC, GRP_MC, FEE_GRANT), extra={"quick": [removed_signer_acts], "thorough": [removed_signer_acts]}, sweep=AUTH_SWEEP, random=rnd("mix", (300, 2), (1500, 10)),
                 rule="TLC breadth-first sweep MC_Auth: every message type x every account as signer x every account as named address in three encodings (foreign key, proper signature, Exec wrapper) from a prepared state; each behaviour replayed on the real app; state digest before/after compared", assumptions=COMMON_ASSUME),
-    "C14": dict(mc=both(FEE_MC, ENT_MC, ENT_GHOST), extra={"quick": [extreme_amounts], "thorough": [extreme_amounts]}, sim=both(FEE_SIM, ENT_SIM), sweep=both(FEE_SWEEP, PAR_SWEEP, AUTH_SWEEP), random=rnd("mix", (400, 3), (2500, 20)),
+    "C14": dict(mc=both(FEE_MC, ENT_MC, ENT_GHOST, REG_GHOST, STR_GHOST), extra={"quick": [extreme_amounts], "thorough": [extreme_amounts]}, sim=both(FEE_SIM, ENT_SIM), sweep=both(FEE_SWEEP, PAR_SWEEP, AUTH_SWEEP), random=rnd("mix", (400, 3), (2500, 20)),
                 rule="begin/end block and commit wrapped in recover (a panic is the observation halted); failed and panicking txs compared on the full projection (only ante effects may remain); multi-message txs with the k-th message failing; extreme amounts (orders of 2^62 ... 2^200 nund as decimal strings, minted, locked, partly unlocked, exported and imported) judged by Trace!ExtremeJudge: no begin/end blocker or commit panics, failed transactions and read-only calls leave every module store byte-identical", assumptions=COMMON_ASSUME),
     "C16": dict(mc=both(ENT_GHOST, REG_GHOST, STR_GHOST, REG_DEEP), extra={"quick": [removed_signer_acts, signer_list_anomalies], "thorough": [removed_signer_acts, signer_list_anomalies]}, sweep=PAR_SWEEP, sim=ENT_SIM, random=rnd("mix", (300, 2), (1500, 10)),
                 rule="TLC breadth-first sweep MC_Par: parameter structures with each field at/inside/outside its bounds through a real governance proposal, followed by probes of every dependent rule; stored parameters re-validated against the stated rules in every observed state", assumptions=COMMON_ASSUME),
